@@ -766,7 +766,7 @@ def locate(diag, A, fname):
 
 
 def tags_of(text):
-    m = re.search(r"//:\s*([C0-9 ,]+)\s*$", text or "")
+    m = re.search(r"//:\s*([C0-9 ,]+?)\s*(//#.*)?$", text or "")
     if not m:
         return None
     return [t for t in re.split(r"[ ,]+", m.group(1).strip()) if t]
